@@ -175,6 +175,8 @@ func classOfPanic(v any) string {
 		return "struct"
 	case []string:
 		return "slice"
+	case []byte:
+		return "bytes"
 	}
 	return fmt.Sprintf("other:%T", v)
 }
@@ -189,6 +191,8 @@ func panicValue(class string) any {
 		return panicStruct{N: 7}
 	case "slice": // not comparable, not hashable
 		return []string{"verif", "panic", "slice"}
+	case "bytes": // what the recovery function makes of it is a message that is not valid UTF-8
+		return []byte("bad\xffutf8")
 	case "abort":
 		return http.ErrAbortHandler
 	case "wrapabort": // not the sentinel itself: must be recovered like any other value
@@ -222,6 +226,10 @@ func buildOpts(nodes []optNode, side string, log *layerLog, rl *recoverLog, rec 
 						// what the function returns is the function's business: a coded error whose cause happens to
 						// be a context error must reach the client with the function's code
 						return coded(fmt.Errorf("recovered%w", ctxCause{}))
+					}
+					if b, ok := v.([]byte); ok {
+						// the function quotes the value: its message is not valid UTF-8, its code must arrive all the same
+						return coded(fmt.Errorf("recovered: %s", b))
 					}
 					return coded(errors.New("recovered"))
 				}))
